@@ -181,3 +181,36 @@ func (r *Runner) FilterPanel(leaves []Q, sample int, trees int) {
 		r.Filter(r.RandomTree(leaves, 3))
 	}
 }
+
+// WideProbe: composite filters with many sub-queries of equal cost (the
+// sub-queries of one request are evaluated side by side and their answers
+// merged): k requests, each an _and or an _or of 16..64 leaves.
+func (r *Runner) WideProbe(leaves []Q, k int) {
+	if len(leaves) == 0 {
+		return
+	}
+	for i := 0; i < k; i++ {
+		n := 16 + r.R.Intn(49)
+		reals := make([]models.Query, n)
+		abss := make([]M, n)
+		// (an _and of many random leaves is almost always empty: its leaves come from a few that match a lot)
+		and := r.R.Intn(3) == 0
+		pool := leaves
+		if and {
+			pool = make([]Q, 0, 4)
+			for j := 0; j < 4; j++ {
+				pool = append(pool, leaves[r.R.Intn(len(leaves))])
+			}
+		}
+		for j := range reals {
+			q := pool[r.R.Intn(len(pool))]
+			reals[j] = copyQuery(q.Real)
+			abss[j] = q.Abs
+		}
+		if and {
+			r.Filter(Q{models.Query{Property: "_and", And: reals}, M{"k": "and", "sub": abss}})
+		} else {
+			r.Filter(Q{models.Query{Property: "_or", Or: reals}, M{"k": "or", "sub": abss}})
+		}
+	}
+}
